@@ -218,6 +218,16 @@ def r4(ctx):
     if len(st) != 1:
         raise AnalysisError(f"{short(upd.qualname)} does not assign train_inverse exactly once")
     v = st[0].value
+    if "@mutated" in str(v):
+        # the matrix that becomes the MRF is completed by an in-place library call (fill_diagonal, putmask, copyto ...) around the
+        # filter: kept entries are then no longer "exactly what the optimiser produced" / small ones no longer all zero
+        saved_ev, ctx.evidence = ctx.evidence, True
+        try:
+            ctx.fail(upd, "the matrix stored as train_inverse is edited in place around the small-entry filter", line=st[0].stmt.lineno,
+                     role="filter:in-place-edit", expected="train_inverse = filter(reinflate(result), eps) and nothing else", found=str(v)[:120])
+        finally:
+            ctx.evidence = saved_ev
+        return
     ok = isinstance(v, App) and v.fn == fi.qualname and len(v.args) >= 2
     if ok:
         ra = v.args[0].args if isinstance(v.args[0], App) and v.args[0].fn.endswith("matrix_compression.reinflate_matrix") else ()
